@@ -463,7 +463,7 @@ def u_write(W, sk):
 def sk_assign_whole(tier):
     from .dimensions import operand_pairs
 
-    return [{"x": x, "y": y} for x, y in operand_pairs(_rank(tier, 3, 4))]
+    return [{"x": x, "y": y} for x, y in operand_pairs(_rank(tier, 3, 4))] + [{"x": ALPHA[:k], "y": ALPHA[:k], "alias": True} for k in range(0, 4)]
 
 
 @unit(
@@ -479,6 +479,18 @@ def u_assign_whole(W, sk):
     D, x, y = operands(W, sk)
     before = SL.lab_of_values(W, x.values.copy(), [D[l] for l in sk["x"]])
     dsnap = (x.dims, list(x.dims.dim_list))
+    if sk.get("alias"):
+        # x[...] = x : the array keeps its entries, dimensions and well-formedness
+        def do_self():
+            x[...] = x
+
+        out = W.call(do_self)
+        W.prove("assign_self.returns", out.kind == "return", detail=repr(out))
+        W.prove("assign_self.frame.dims_object", x.dims is dsnap[0], kind="frame")
+        if SL.check_wf(W, "assign_self.target", x):
+            X = SL.lab(W, x)
+            W.forall("assign_self.entries", [W.size_of(D[l]) for l in sk["x"]], lambda idx: W.num_eq(X.at(dict(zip(sk["x"], idx))), before.at(dict(zip(sk["x"], idx)))))
+        return
     ysn = SL.snapshot(W, [y])
     Y = SL.lab(W, y)
 
